@@ -153,8 +153,11 @@ def build_events(st, events_desc: list[dict]):
         status, cases = SHAPES[e["shape"]]
         rec = st["Recorder"](label=e["label"])
         for c, (resp, checks) in enumerate(cases, 1):
+            failed = any(checks)
             exch.append(make_exchange(
                 st, rec, cid="e%dc%d" % (k, c), url="%s/a?e=%d&c=%d" % (BASE, k, c), resp=resp,
+                status=500 if failed else 200, reason="Internal Server Error" if failed else "OK",
+                req_body=b"k=%d" % k if c == 2 else None, resp_body=b'{"ev": %d}' % k,
                 meta_kind=META[e["phase"]], checks=[("chk", f, TITLE.get(f), "m%d" % f) for f in checks]))
         out.append(ev.ScenarioFinished(
             id=uuid.uuid4(), phase=phase, suite_id=suite, label=None if e["label"] == "Stateful tests" else e["label"],
@@ -560,8 +563,14 @@ def judge_histories(ctx: Ctx, hs: list[dict], obs: list[dict], tag: str) -> tupl
 # ------------------------------------------------------------------------------------------------------------------
 # (b) emitter grammar: one string in one field of one exchange
 # ------------------------------------------------------------------------------------------------------------------
-def variants(field: str) -> list[tuple[bool, bool]]:
-    """(preserve_bytes, sanitize_output) combinations exercised for a field."""
+# fields whose text the VCR writer quotes by hand; only these get the longest strings of the thorough family
+HAND_QUOTED = ("url-path", "url-query", "title", "command", "cov-description", "req-body", "resp-body")
+
+
+def variants(field: str, length: int = 0, max_len: int = 3) -> list[tuple[bool, bool]]:
+    """(preserve_bytes, sanitize_output) combinations exercised for a field and a string length."""
+    if length >= 3 and length == max_len:
+        return [(False, False)] if field in HAND_QUOTED else []
     if field in ("req-body", "resp-body"):
         return [(False, False), (True, False)]
     if field in ("url-path", "url-query"):
@@ -786,7 +795,9 @@ def run(ctx: Ctx) -> Outcome:
     if mism:
         raise tlc.TLCFailure("the TLA+ YAML scanner and PyYAML disagree on %d of %d scalars, e.g. %r - the spec's model of "
                              "YAML is wrong (machinery)" % (len(mism), n_x, mism[:3]))
-    cases = [{"s": c["s"], "field": f, "preserve": p, "sanitize": z} for c in strings for f in FIELDS for p, z in variants(f)]
+    max_len = max(len(c["s"]) for c in strings)
+    cases = [{"s": c["s"], "field": f, "preserve": p, "sanitize": z} for c in strings for f in FIELDS
+             for p, z in variants(f, len(c["s"]), max_len)]
     t1 = time.time()
     obs_all = common.pmap(observe_string, cases)
     t_replay_s = time.time() - t1
@@ -846,7 +857,8 @@ def run(ctx: Ctx) -> Outcome:
                       for i, c in common.sample(rng, list(enumerate(kept_cases)), 3)],
         "rule": "(a) every finished history reachable in Reports.tla under Reports_%s.cfg, each replayed once through the real "
                 "ExecutionContext/JunitXMLHandler/CassetteWriter(vcr,har) and judged step by step by ReportsTrace.tla; "
-                "(b) every string of ReportsYaml_%s.cfg x %d fields x preserve/sanitize variants, raw cassette judged line by line "
+                "(b) every string of ReportsYaml_%s.cfg x %d fields x preserve/sanitize variants (strings of the maximal length 3: the 7 "
+                "hand-quoted fields, plain variant only), raw cassette judged line by line "
                 "by ReportsYamlJudge.tla; non-trivial = history with a spec hazard / string with a non-alphanumeric character" % (
                     tier, tier, len(FIELDS)),
         "exhaustive": True,
